@@ -184,6 +184,22 @@ def analyse(repo: Path):
                         esc.append("return")
                 defaults.append({"file": fname, "func": fn.name, "param": p.arg, "line": fn.lineno, "writes": w, "escapes": sorted(set(esc))})
     # ---- display code
+    # names whose call can reach a user callable (conservative name-based call graph of handlers2lean: the user-callable parameters,
+    # every function of the package that calls one of them, transitively, nested functions such as `phi` included)
+    import handlers2lean as _h2l
+    _tries, _reach = _h2l.analyse(repo)
+    reaching = set(_reach) | set(_h2l.USER_PARAMS)
+
+    def user_calls(node: ast.AST):
+        called = set()
+        for m in ast.walk(node):
+            if isinstance(m, ast.Call):
+                if isinstance(m.func, ast.Name):
+                    called.add(m.func.id)
+                elif isinstance(m.func, ast.Attribute):
+                    called.add(m.func.attr)
+        return sorted(c for c in called if c in reaching)
+
     def reads_iprint(test: ast.AST) -> bool:
         return any(isinstance(n, ast.Name) and n.id in ("iprint", "logger") for n in ast.walk(test))
 
@@ -195,7 +211,8 @@ def analyse(repo: Path):
             if is_display:
                 params = {a.arg for a in fn.args.args + fn.args.kwonlyargs + fn.args.posonlyargs}
                 w = sorted({f"{line}:{how} on {b}" for (b, line, how) in writes_in(fn) if b in params})
-                display.append({"file": fname, "line": fn.lineno, "kind": "helper " + fn.name, "leaks": [], "writes": w, "jumps": []})
+                display.append({"file": fname, "line": fn.lineno, "kind": "helper " + fn.name, "leaks": [], "writes": w, "jumps": [],
+                                "evals": user_calls(fn)})
                 continue
             for n in ast.walk(fn):
                 if not (isinstance(n, ast.If) and reads_iprint(n.test)):
@@ -208,7 +225,8 @@ def analyse(repo: Path):
                 w = sorted({f"{line}:{how} on {b}" for (b, line, how) in writes_in(body) if b not in assigned and b != "logger"})
                 jumps = sorted({f"{type(m).__name__.lower()}@{m.lineno}" for m in ast.walk(body)
                                 if isinstance(m, (ast.Return, ast.Break, ast.Continue, ast.Raise))})
-                display.append({"file": fname, "line": n.lineno, "kind": "block in " + fn.name, "leaks": leaks, "writes": w, "jumps": jumps})
+                display.append({"file": fname, "line": n.lineno, "kind": "block in " + fn.name, "leaks": leaks, "writes": w, "jumps": jumps,
+                                "evals": user_calls(body)})
     # display helpers must be called as statements; when their value is kept, the variable may
     # only be read in the test of an `if` whose body is display code
     helper_names = {d["kind"].split(" ", 1)[1] for d in display if d["kind"].startswith("helper ")}
@@ -300,13 +318,15 @@ def emit(globs, defaults, display, input_writes) -> str:
          "structure Default where", "  file : String", "  func : String", "  param : String", "  line : Nat",
          "  writes : List String", "  escapes : List String", "  deriving Repr, DecidableEq", "",
          "structure Display where", "  file : String", "  line : Nat", "  kind : String", "  leaks : List String",
-         "  writes : List String", "  jumps : List String", "  deriving Repr, DecidableEq", "",
+         "  writes : List String", "  jumps : List String",
+         "  /-- names called in the display code whose call can reach a user callable (an evaluation made for the sake of a message) -/",
+         "  evals : List String", "  deriving Repr, DecidableEq", "",
          "def globals : List Global := ["]
     L.append(",\n".join(f'  {{ file := "{g["file"]}", name := "{g["name"]}", place := "{g["where"]}", line := {g["line"]}, writes := {lstr(g["writes"])} }}' for g in globs))
     L += ["]", "", "def defaults : List Default := ["]
     L.append(",\n".join(f'  {{ file := "{d["file"]}", func := "{d["func"]}", param := "{d["param"]}", line := {d["line"]}, writes := {lstr(d["writes"])}, escapes := {lstr(d["escapes"])} }}' for d in defaults))
     L += ["]", "", "def display : List Display := ["]
-    L.append(",\n".join(f'  {{ file := "{d["file"]}", line := {d["line"]}, kind := "{d["kind"]}", leaks := {lstr(d["leaks"])}, writes := {lstr(d["writes"])}, jumps := {lstr(d["jumps"])} }}' for d in display))
+    L.append(",\n".join(f'  {{ file := "{d["file"]}", line := {d["line"]}, kind := "{d["kind"]}", leaks := {lstr(d["leaks"])}, writes := {lstr(d["writes"])}, jumps := {lstr(d["jumps"])}, evals := {lstr(d.get("evals", []))} }}' for d in display))
     L += ["]", "", "/-- in-place modifications, in `minimize_lbfgsb`, of `x0`, `bounds`, `checkpoint`, `args` or of a name bound directly to (a part of) one of them -/",
           f"def inputWrites : List String := {lstr(input_writes)}", "", "end Lbfgsb.Generated.State", ""]
     return "\n".join(L)
